@@ -1,4 +1,798 @@
+(* C06 -- lemmas about Model/Stores.v *)
 From Oras Require Import Base.Prelude Model.Stores.
-Lemma mem_push_present_noop s d c x :
-  get gkey_eqb (gk d) (m_cas s) = Some x -> mem_step s (Push d c) = (s, OErr EAlreadyExists).
-Proof. intro H. simpl. now rewrite H. Qed.
+From Coq Require Import Permutation.
+
+(* ---------- decidable keys ---------- *)
+Lemma gkey_eqb_spec a c : gkey_eqb a c = true <-> a = c.
+Proof.
+  destruct a as [[a1 a2] a3], c as [[c1 c2] c3]; simpl.
+  rewrite !andb_true_iff, !N.eqb_eq. split.
+  - intros [[-> ->] ->]. reflexivity.
+  - intro H. injection H as -> -> ->. auto.
+Qed.
+
+Lemma ref_eqb_spec a c : ref_eqb a c = true <-> a = c.
+Proof.
+  destruct a, c; simpl; try rewrite N.eqb_eq; split; intro H;
+    try discriminate; try congruence; try reflexivity.
+Qed.
+
+Lemma Neqb_spec (a c : N) : (a =? c) = true <-> a = c.
+Proof. apply N.eqb_eq. Qed.
+
+Section AMapFacts.
+  Context {K V : Type} (eqb : K -> K -> bool).
+  Hypothesis eqb_spec : forall a c, eqb a c = true <-> a = c.
+
+  Lemma eqb_refl (a : K) : eqb a a = true.
+  Proof. now apply eqb_spec. Qed.
+
+  Lemma eqb_neq (a c : K) : a <> c -> eqb a c = false.
+  Proof. intro H. destruct (eqb a c) eqn:E; auto. apply eqb_spec in E. contradiction. Qed.
+
+  Lemma eqb_dec (a c : K) : {a = c} + {a <> c}.
+  Proof.
+    destruct (eqb a c) eqn:E.
+    - left. now apply eqb_spec.
+    - right. intro H. apply eqb_spec in H. congruence.
+  Qed.
+
+  Lemma get_put_eq k (v : V) m : get eqb k (put eqb k v m) = Some v.
+  Proof.
+    induction m as [|[k' v'] m IH]; simpl.
+    - now rewrite eqb_refl.
+    - destruct (eqb k k') eqn:E; simpl; [now rewrite eqb_refl | now rewrite E].
+  Qed.
+
+  Lemma get_put_neq k k' (v : V) m : k <> k' -> get eqb k (put eqb k' v m) = get eqb k m.
+  Proof.
+    intro H. induction m as [|[k2 v2] m IH]; simpl.
+    - now rewrite (eqb_neq _ _ H).
+    - destruct (eqb k' k2) eqn:E; simpl.
+      + apply eqb_spec in E. subst k2. now rewrite (eqb_neq _ _ H).
+      + now rewrite IH.
+  Qed.
+
+  Lemma get_del_eq k (m : list (K * V)) : get eqb k (del eqb k m) = None.
+  Proof.
+    induction m as [|[k' v'] m IH]; simpl; auto.
+    destruct (eqb k k') eqn:E; simpl; auto. now rewrite E.
+  Qed.
+
+  Lemma get_del_neq k k' (m : list (K * V)) : k <> k' -> get eqb k (del eqb k' m) = get eqb k m.
+  Proof.
+    intro H. induction m as [|[k2 v2] m IH]; simpl; auto.
+    destruct (eqb k' k2) eqn:E; simpl.
+    - apply eqb_spec in E. subst k2. now rewrite (eqb_neq _ _ H).
+    - now rewrite IH.
+  Qed.
+
+  Lemma del_absent k (m : list (K * V)) : get eqb k m = None -> del eqb k m = m.
+  Proof.
+    induction m as [|[k' v'] m IH]; simpl; auto.
+    destruct (eqb k k') eqn:E; [discriminate|]. intro H. now rewrite IH.
+  Qed.
+
+  Lemma get_In k (v : V) m : get eqb k m = Some v -> In (k, v) m.
+  Proof.
+    induction m as [|[k' v'] m IH]; simpl; [discriminate|].
+    destruct (eqb k k') eqn:E.
+    - apply eqb_spec in E. subst. intro H. injection H as ->. now left.
+    - intro H. right. auto.
+  Qed.
+
+  Lemma In_get k (v : V) m : NoDup (map fst m) -> In (k, v) m -> get eqb k m = Some v.
+  Proof.
+    induction m as [|[k' v'] m IH]; simpl; [tauto|].
+    intros Hnd [H|H].
+    - injection H as -> ->. now rewrite eqb_refl.
+    - inversion Hnd as [|? ? Hni Hnd']; subst.
+      destruct (eqb k k') eqn:E.
+      + apply eqb_spec in E. subst. exfalso. apply Hni. apply in_map_iff. exists (k', v). auto.
+      + auto.
+  Qed.
+
+  Lemma In_put_inv k (v : V) k0 v0 m : In (k, v) (put eqb k0 v0 m) -> (k, v) = (k0, v0) \/ In (k, v) m.
+  Proof.
+    induction m as [|[k' v'] m IH]; simpl.
+    - intros [H|[]]. left. congruence.
+    - destruct (eqb k0 k') eqn:E; simpl.
+      + intros [H|H]; [left; congruence | right; now right].
+      + intros [H|H]; [right; now left|]. destruct (IH H); auto.
+  Qed.
+
+  Lemma In_del_inv k (v : V) k0 m : In (k, v) (del eqb k0 m) -> In (k, v) m /\ k <> k0.
+  Proof.
+    induction m as [|[k' v'] m IH]; simpl; [tauto|].
+    destruct (eqb k0 k') eqn:E; simpl.
+    - intro H. destruct (IH H). split; auto.
+    - intros [H|H].
+      + injection H as -> ->. split; [now left|]. intro; subst. rewrite eqb_refl in E. discriminate.
+      + destruct (IH H). split; auto.
+  Qed.
+
+  Lemma keys_put k (v : V) m x : In x (map fst (put eqb k v m)) -> x = k \/ In x (map fst m).
+  Proof.
+    induction m as [|[k' v'] m IH]; simpl.
+    - intros [H|[]]; auto.
+    - destruct (eqb k k') eqn:E; simpl.
+      + intros [H|H]; auto.
+      + intros [H|H]; auto. destruct (IH H); auto.
+  Qed.
+
+  Lemma NoDup_put k (v : V) m : NoDup (map fst m) -> NoDup (map fst (put eqb k v m)).
+  Proof.
+    induction m as [|[k' v'] m IH]; simpl; intro H.
+    - constructor; [tauto | constructor].
+    - inversion H as [|? ? Hni Hnd]; subst.
+      destruct (eqb k k') eqn:E; simpl.
+      + apply eqb_spec in E. subst. now constructor.
+      + constructor; auto. intro Hin. apply keys_put in Hin as [->|Hin]; auto.
+        rewrite eqb_refl in E. discriminate.
+  Qed.
+
+  Lemma keys_del k (m : list (K * V)) x : In x (map fst (del eqb k m)) -> In x (map fst m).
+  Proof.
+    induction m as [|[k' v'] m IH]; simpl; auto.
+    destruct (eqb k k'); simpl; intuition.
+  Qed.
+
+  Lemma NoDup_del k (m : list (K * V)) : NoDup (map fst m) -> NoDup (map fst (del eqb k m)).
+  Proof.
+    induction m as [|[k' v'] m IH]; simpl; intro H; auto.
+    inversion H as [|? ? Hni Hnd]; subst.
+    destruct (eqb k k'); simpl; auto. constructor; auto. intro Hin. apply Hni. eapply keys_del; eauto.
+  Qed.
+
+  (* list-sets *)
+  Lemma mem_In (x : K) l : mem eqb x l = true <-> In x l.
+  Proof.
+    unfold mem. rewrite existsb_exists. split.
+    - intros (y & Hy & E). apply eqb_spec in E. now subst.
+    - intro H. exists x. split; auto. apply eqb_refl.
+  Qed.
+
+  Lemma In_set_add (x y : K) l : In y (set_add eqb x l) <-> y = x \/ In y l.
+  Proof.
+    unfold set_add. destruct (mem eqb x l) eqn:E.
+    - apply mem_In in E. split; [auto|]. intros [->|H]; auto.
+    - rewrite in_app_iff. simpl. intuition.
+  Qed.
+
+  Lemma In_set_del (x y : K) l : In y (set_del eqb x l) <-> In y l /\ y <> x.
+  Proof.
+    unfold set_del. rewrite filter_In. split.
+    - intros [H1 H2]. split; auto. intro; subst. rewrite eqb_refl in H2. discriminate.
+    - intros [H1 H2]. split; auto. rewrite eqb_neq; auto.
+  Qed.
+End AMapFacts.
+
+Lemma is_nil_spec {A} (l : list A) : is_nil l = true <-> l = [].
+Proof. destruct l; simpl; split; intro H; try discriminate; auto. Qed.
+
+Section GetD.
+  Context {K V : Type} (eqb : K -> K -> bool).
+  Hypothesis eqb_spec : forall a c, eqb a c = true <-> a = c.
+  Lemma getd_put_eq k (l : list V) m : getd eqb k (put eqb k l m) = l.
+  Proof. unfold getd. now rewrite get_put_eq. Qed.
+  Lemma getd_put_neq k k' (l : list V) m : k <> k' -> getd eqb k (put eqb k' l m) = getd eqb k m.
+  Proof. intro H. unfold getd. now rewrite get_put_neq. Qed.
+  Lemma getd_del_eq k (m : list (K * list V)) : getd eqb k (del eqb k m) = [].
+  Proof. unfold getd. now rewrite get_del_eq. Qed.
+  Lemma getd_del_neq k k' (m : list (K * list V)) : k <> k' -> getd eqb k (del eqb k' m) = getd eqb k m.
+  Proof. intro H. unfold getd. now rewrite get_del_neq. Qed.
+End GetD.
+
+(* ---------- graph.Memory: the invariant relative to the stored successor lists ---------- *)
+Definition gdec := eqb_dec gkey_eqb gkey_eqb_spec.
+
+Definition upd (S : gkey -> option (list gkey)) (k : gkey) (v : option (list gkey)) :=
+  fun k' => if gkey_eqb k' k then v else S k'.
+
+Record graph_inv (S : gkey -> option (list gkey)) (g : graph) : Prop := mkGI {
+  gi_nodes : forall k, get gkey_eqb k (g_nodes g) = None <-> S k = None;
+  gi_nodes_key : forall k d, get gkey_eqb k (g_nodes g) = Some d -> gk d = k;
+  gi_succs : forall k, match S k with
+                       | None => get gkey_eqb k (g_succs g) = None
+                       | Some l => exists l', get gkey_eqb k (g_succs g) = Some l' /\
+                                              forall x, In x l' <-> In x l
+                       end;
+  gi_preds : forall n p, In p (getd gkey_eqb n (g_preds g)) <-> exists l, S p = Some l /\ In n l }.
+
+Lemma graph_inv_ext S S' g : (forall k, S k = S' k) -> graph_inv S g -> graph_inv S' g.
+Proof.
+  intros E [H1 H2 H3 H4]. constructor.
+  - intro k. rewrite <- E. apply H1.
+  - exact H2.
+  - intro k. rewrite <- E. apply H3.
+  - intros n p. rewrite H4. split; intros (l & A & B); exists l; [rewrite <- E | rewrite E]; auto.
+Qed.
+
+Lemma graph_inv_init : graph_inv (fun _ => None) graph_init.
+Proof.
+  constructor; simpl; intros; try tauto; try discriminate.
+  unfold getd; simpl. split; [tauto|]. intros (l & A & _). discriminate.
+Qed.
+
+Lemma fold_set_add_In (ss : list gkey) acc x :
+  In x (fold_left (fun acc sk => set_add gkey_eqb sk acc) ss acc) <-> In x acc \/ In x ss.
+Proof.
+  revert acc. induction ss as [|sk ss IH]; intro acc; simpl; [tauto|].
+  rewrite IH. rewrite (In_set_add gkey_eqb gkey_eqb_spec). intuition.
+Qed.
+
+Definition index_fold (k : gkey) (ss : list gkey) (ps : list (gkey * list gkey)) :=
+  fold_left (fun ps sk => put gkey_eqb sk (set_add gkey_eqb k (getd gkey_eqb sk ps)) ps) ss ps.
+
+Lemma index_fold_In k ss ps n p :
+  In p (getd gkey_eqb n (index_fold k ss ps)) <-> In p (getd gkey_eqb n ps) \/ (p = k /\ In n ss).
+Proof.
+  unfold index_fold. revert ps. induction ss as [|sk ss IH]; intro ps; simpl; [tauto|].
+  rewrite IH. destruct (gdec n sk) as [->|Hne].
+  - rewrite (getd_put_eq gkey_eqb gkey_eqb_spec). rewrite (In_set_add gkey_eqb gkey_eqb_spec). intuition.
+  - rewrite (getd_put_neq gkey_eqb gkey_eqb_spec) by exact Hne. intuition. congruence.
+Qed.
+
+Definition remove_fold (k : gkey) (ss : list gkey) (ps : list (gkey * list gkey)) :=
+  fold_left (fun ps sk =>
+               let e := set_del gkey_eqb k (getd gkey_eqb sk ps) in
+               if is_nil e then del gkey_eqb sk ps else put gkey_eqb sk e ps) ss ps.
+
+Lemma remove_fold_In k ss ps n p :
+  In p (getd gkey_eqb n (remove_fold k ss ps)) <-> In p (getd gkey_eqb n ps) /\ ~ (p = k /\ In n ss).
+Proof.
+  unfold remove_fold. revert ps. induction ss as [|sk ss IH]; intro ps; simpl; [tauto|].
+  rewrite IH. clear IH.
+  assert (Hstep : In p (getd gkey_eqb n
+             (if is_nil (set_del gkey_eqb k (getd gkey_eqb sk ps)) then del gkey_eqb sk ps
+              else put gkey_eqb sk (set_del gkey_eqb k (getd gkey_eqb sk ps)) ps))
+            <-> In p (getd gkey_eqb n ps) /\ ~ (p = k /\ n = sk)).
+  { destruct (gdec n sk) as [->|Hne].
+    - destruct (is_nil _) eqn:E.
+      + apply is_nil_spec in E. rewrite (getd_del_eq gkey_eqb). simpl.
+        split; [tauto|]. intros [A B].
+        assert (C : In p (set_del gkey_eqb k (getd gkey_eqb sk ps))).
+        { apply (In_set_del gkey_eqb gkey_eqb_spec). split; [exact A|]. intro Hpk. apply B; auto. }
+        rewrite E in C. destruct C.
+      + rewrite (getd_put_eq gkey_eqb gkey_eqb_spec). rewrite (In_set_del gkey_eqb gkey_eqb_spec).
+        split; intros [A B]; (split; [exact A|]); [intros [C _]; auto | intro Hpk; apply B; auto].
+    - destruct (is_nil _).
+      + rewrite (getd_del_neq gkey_eqb gkey_eqb_spec) by exact Hne. intuition.
+      + rewrite (getd_put_neq gkey_eqb gkey_eqb_spec) by exact Hne. intuition. }
+  rewrite Hstep. split.
+  - intros [[A B] C]. split; [exact A|]. intros [D [E|E]]; [apply B; split; auto | apply C; auto].
+  - intros [A B]. split; [split; [exact A|]|].
+    + intros [C D]. apply B. split; [exact C|]. left. auto.
+    + intros [C D]. apply B. split; [exact C|]. right. exact D.
+Qed.
+
+Lemma upd_eq S k v : upd S k v k = v.
+Proof. unfold upd. now rewrite (eqb_refl gkey_eqb gkey_eqb_spec). Qed.
+Lemma upd_neq S k v k' : k' <> k -> upd S k v k' = S k'.
+Proof. intro H. unfold upd. now rewrite (eqb_neq gkey_eqb gkey_eqb_spec _ _ H). Qed.
+
+Lemma g_index_nodes n ss g : g_nodes (g_index n ss g) = put gkey_eqb (gk n) n (g_nodes g).
+Proof. reflexivity. Qed.
+Lemma g_index_preds n ss g : g_preds (g_index n ss g) = index_fold (gk n) ss (g_preds g).
+Proof. reflexivity. Qed.
+Lemma g_index_succs n ss g :
+  g_succs (g_index n ss g) =
+  put gkey_eqb (gk n) (fold_left (fun acc sk => set_add gkey_eqb sk acc) ss []) (g_succs g).
+Proof. reflexivity. Qed.
+Lemma g_remove_nodes n g : g_nodes (g_remove n g) = del gkey_eqb (gk n) (g_nodes g).
+Proof. reflexivity. Qed.
+Lemma g_remove_preds n g :
+  g_preds (g_remove n g) = remove_fold (gk n) (getd gkey_eqb (gk n) (g_succs g)) (g_preds g).
+Proof. reflexivity. Qed.
+Lemma g_remove_succs n g : g_succs (g_remove n g) = del gkey_eqb (gk n) (g_succs g).
+Proof. reflexivity. Qed.
+
+Lemma g_index_inv S g n ss :
+  graph_inv S g -> S (gk n) = None -> graph_inv (upd S (gk n) (Some ss)) (g_index n ss g).
+Proof.
+  intros [H1 H2 H3 H4] Hnew. set (k := gk n).
+  constructor; rewrite ?g_index_nodes, ?g_index_preds, ?g_index_succs; fold k.
+  - intro k'. destruct (gdec k' k) as [->|Hne].
+    + rewrite (get_put_eq gkey_eqb gkey_eqb_spec), upd_eq. split; discriminate.
+    + rewrite (get_put_neq gkey_eqb gkey_eqb_spec) by exact Hne. rewrite upd_neq by exact Hne. apply H1.
+  - intros k' d. destruct (gdec k' k) as [->|Hne].
+    + rewrite (get_put_eq gkey_eqb gkey_eqb_spec). intro E. injection E as <-. reflexivity.
+    + rewrite (get_put_neq gkey_eqb gkey_eqb_spec) by exact Hne. apply H2.
+  - intro k'. destruct (gdec k' k) as [->|Hne].
+    + rewrite upd_eq, (get_put_eq gkey_eqb gkey_eqb_spec). eexists. split; [reflexivity|].
+      intro x. rewrite fold_set_add_In. simpl. tauto.
+    + rewrite upd_neq by exact Hne. rewrite (get_put_neq gkey_eqb gkey_eqb_spec) by exact Hne. apply H3.
+  - intros m p. rewrite index_fold_In, H4. split.
+    + intros [(l & A & B)|[-> B]].
+      * exists l. split; auto. rewrite upd_neq; auto. intro; subst. unfold k in *. congruence.
+      * exists ss. split; auto. apply upd_eq.
+    + intros (l & A & B). destruct (gdec p k) as [->|Hne].
+      * rewrite upd_eq in A. injection A as <-. right. auto.
+      * rewrite upd_neq in A by exact Hne. left. eauto.
+Qed.
+
+Lemma g_remove_inv S g n :
+  graph_inv S g -> graph_inv (upd S (gk n) None) (g_remove n g).
+Proof.
+  intros [H1 H2 H3 H4]. set (k := gk n).
+  constructor; rewrite ?g_remove_nodes, ?g_remove_preds, ?g_remove_succs; fold k.
+  - intro k'. destruct (gdec k' k) as [->|Hne].
+    + rewrite (get_del_eq gkey_eqb), upd_eq. tauto.
+    + rewrite (get_del_neq gkey_eqb gkey_eqb_spec) by exact Hne. rewrite upd_neq by exact Hne. apply H1.
+  - intros k' d. destruct (gdec k' k) as [->|Hne].
+    + rewrite (get_del_eq gkey_eqb). discriminate.
+    + rewrite (get_del_neq gkey_eqb gkey_eqb_spec) by exact Hne. apply H2.
+  - intro k'. destruct (gdec k' k) as [->|Hne].
+    + rewrite upd_eq. apply (get_del_eq gkey_eqb).
+    + rewrite upd_neq by exact Hne. rewrite (get_del_neq gkey_eqb gkey_eqb_spec) by exact Hne. apply H3.
+  - intros m p. rewrite remove_fold_In, H4. split.
+    + intros [(l & A & B) C]. exists l. split; auto. rewrite upd_neq; auto.
+      intro; subst p. apply C. split; auto.
+      specialize (H3 k). rewrite A in H3. destruct H3 as (l' & E & F). unfold getd. rewrite E. now apply F.
+    + intros (l & A & B). destruct (gdec p k) as [->|Hne].
+      * rewrite upd_eq in A. discriminate.
+      * rewrite upd_neq in A by exact Hne. split; [eauto|]. intros [C _]. contradiction.
+Qed.
+
+(* Predecessors answers exactly the stored nodes whose successor list contains n *)
+Lemma g_predecessors_spec S g n x :
+  graph_inv S g ->
+  In x (map gk (g_predecessors n g)) <-> exists l, S x = Some l /\ In (gk n) l.
+Proof.
+  intros [H1 H2 H3 H4]. rewrite <- H4. unfold g_predecessors, getd.
+  destruct (get gkey_eqb (gk n) (g_preds g)) as [l|] eqn:E; simpl; [|tauto].
+  assert (Hl : forall p, In p l -> exists d, get gkey_eqb p (g_nodes g) = Some d /\ gk d = p).
+  { intros p Hp. assert (Hp' : In p (getd gkey_eqb (gk n) (g_preds g))) by (unfold getd; now rewrite E).
+    apply H4 in Hp' as (l0 & A & _).
+    destruct (get gkey_eqb p (g_nodes g)) as [d|] eqn:En.
+    - exists d. split; auto.
+    - apply H1 in En. congruence. }
+  rewrite map_map. rewrite in_map_iff. split.
+  - intros (p & A & B). destruct (Hl p B) as (d & C & D). rewrite C in A. congruence.
+  - intro Hx. exists x. split; auto. destruct (Hl x Hx) as (d & C & D). now rewrite C.
+Qed.
+
+(* Remove of a node that is not indexed leaves the graph untouched *)
+Lemma g_remove_absent S g n : graph_inv S g -> S (gk n) = None -> g_remove n g = g.
+Proof.
+  intros [H1 H2 H3 H4] Hn. unfold g_remove.
+  pose proof (H3 (gk n)) as A. rewrite Hn in A.
+  pose proof (proj2 (H1 (gk n)) Hn) as B.
+  unfold getd. rewrite A. simpl.
+  rewrite (del_absent gkey_eqb _ _ B), (del_absent gkey_eqb _ _ A). destruct g; reflexivity.
+Qed.
+
+(* ---------- histories ---------- *)
+Lemma run_cons {S} (step : S -> op -> S * out) s o h :
+  run step s (o :: h) =
+  (fst (run step (fst (step s o)) h), snd (step s o) :: snd (run step (fst (step s o)) h)).
+Proof. simpl. destruct (step s o) as [s1 x]. simpl. destruct (run step s1 h). reflexivity. Qed.
+
+Lemma run_app {S} (step : S -> op -> S * out) s h1 h2 :
+  run step s (h1 ++ h2) =
+  (fst (run step (fst (run step s h1)) h2), snd (run step s h1) ++ snd (run step (fst (run step s h1)) h2)).
+Proof.
+  revert s. induction h1 as [|o h1 IH]; intro s.
+  - simpl. now destruct (run step s h2).
+  - rewrite <- app_comm_cons, !run_cons, IH. reflexivity.
+Qed.
+
+(* outputs agree; predecessor lists are compared as sets *)
+Definition out_equiv (a c : out) : Prop :=
+  match a, c with
+  | OPreds x, OPreds y => forall k, In k x <-> In k y
+  | OPreds _, _ | _, OPreds _ => False
+  | _, _ => a = c
+  end.
+
+Lemma out_equiv_refl_eq a c : a = c -> out_equiv a c.
+Proof. intros ->. destruct c; simpl; auto. tauto. Qed.
+
+(* ---------- memory store refines the content map + tag map ---------- *)
+Definition S_mem (cas : list (gkey * blob)) : gkey -> option (list gkey) :=
+  fun k => option_map (succ_of k) (get gkey_eqb k cas).
+
+Record mem_inv (s : mem_store) : Prop := mkMI {
+  mi_nodup : NoDup (map fst (m_cas s));
+  mi_graph : graph_inv (S_mem (m_cas s)) (m_graph s) }.
+
+Lemma mem_inv_init : mem_inv mem_init.
+Proof. constructor; simpl; [constructor | exact graph_inv_init]. Qed.
+
+Lemma mspec_preds_spec n content x :
+  NoDup (map fst content) ->
+  In x (mspec_preds n content) <-> exists l, S_mem content x = Some l /\ In n l.
+Proof.
+  intro Hnd. unfold mspec_preds, S_mem. rewrite in_map_iff. split.
+  - intros ([k c] & A & B). simpl in A. subst k. apply filter_In in B as [B C]. simpl in C.
+    exists (succ_of x c). rewrite (In_get gkey_eqb gkey_eqb_spec _ _ _ Hnd B). simpl. split; auto.
+    now apply (mem_In gkey_eqb gkey_eqb_spec).
+  - intros (l & A & B). destruct (get gkey_eqb x content) as [c|] eqn:E; [|discriminate].
+    simpl in A. injection A as <-. exists (x, c). split; auto. apply filter_In. split.
+    + now apply (get_In gkey_eqb gkey_eqb_spec).
+    + simpl. now apply (mem_In gkey_eqb gkey_eqb_spec).
+Qed.
+
+Lemma mem_step_inv s o : mem_inv s -> mem_inv (fst (mem_step s o)).
+Proof.
+  intros [Hnd Hg]. destruct o; simpl; try (constructor; assumption).
+  - destruct (get gkey_eqb (gk d) (m_cas s)) eqn:E; [constructor; assumption|].
+    destruct (verify d c); [|constructor; assumption]. constructor; simpl.
+    + now apply (NoDup_put gkey_eqb gkey_eqb_spec).
+    + eapply graph_inv_ext; [|apply g_index_inv; [exact Hg | unfold S_mem; now rewrite E]].
+      intro k. unfold upd, S_mem. destruct (gkey_eqb k (gk d)) eqn:Ek.
+      * apply gkey_eqb_spec in Ek. subst k. now rewrite (get_put_eq gkey_eqb gkey_eqb_spec).
+      * rewrite (get_put_neq gkey_eqb gkey_eqb_spec); auto. intro; subst.
+        rewrite (eqb_refl gkey_eqb gkey_eqb_spec) in Ek. discriminate.
+  - destruct (get gkey_eqb (gk d) (m_cas s)); constructor; assumption.
+  - destruct (is_some _); constructor; assumption.
+  - destruct (get ref_eqb r (r_index (m_res s))); constructor; assumption.
+Qed.
+
+Lemma mem_step_refines s o :
+  mem_inv s ->
+  mem_abs (fst (mem_step s o)) = fst (mspec_step (mem_abs s) o) /\
+  out_equiv (snd (mem_step s o)) (snd (mspec_step (mem_abs s) o)).
+Proof.
+  intros [Hnd Hg]. destruct o; simpl.
+  - destruct (get gkey_eqb (gk d) (m_cas s)); [split; reflexivity|].
+    destruct (verify d c); split; reflexivity.
+  - destruct (get gkey_eqb (gk d) (m_cas s)); split; reflexivity.
+  - split; reflexivity.
+  - destruct (is_some _); split; reflexivity.
+  - destruct (get ref_eqb r (r_index (m_res s))); split; reflexivity.
+  - split; [reflexivity|]. intro k.
+    rewrite (g_predecessors_spec _ _ _ _ Hg). symmetry. now apply mspec_preds_spec.
+  - split; reflexivity.
+  - split; reflexivity.
+  - split; reflexivity.
+Qed.
+
+Lemma run_refines_mem h : forall s,
+  mem_inv s ->
+  mem_abs (fst (run mem_step s h)) = fst (run mspec_step (mem_abs s) h) /\
+  Forall2 out_equiv (snd (run mem_step s h)) (snd (run mspec_step (mem_abs s) h)) /\
+  mem_inv (fst (run mem_step s h)).
+Proof.
+  induction h as [|o h IH]; intros s Hinv.
+  - simpl. repeat split; auto; apply Hinv.
+  - rewrite !run_cons. simpl.
+    destruct (mem_step_refines s o Hinv) as [A B].
+    destruct (IH _ (mem_step_inv s o Hinv)) as (C & D & E).
+    rewrite <- A. repeat split; auto; apply E.
+Qed.
+
+(* a refused or failed operation changes nothing -- literally, for the whole concrete state *)
+Lemma mem_failed_noop s o : is_err (snd (mem_step s o)) = true -> fst (mem_step s o) = s.
+Proof.
+  destruct o; simpl; try reflexivity.
+  - destruct (get gkey_eqb (gk d) (m_cas s)); [reflexivity|]. destruct (verify d c); [discriminate|reflexivity].
+  - destruct (get gkey_eqb (gk d) (m_cas s)); reflexivity.
+  - destruct (is_some _); [discriminate|reflexivity].
+  - destruct (get ref_eqb r (r_index (m_res s))); reflexivity.
+Qed.
+
+(* ---------- OCI store refines the content map + tag map ---------- *)
+Local Arguments oci_tag : simpl never.
+Local Arguments res_tag : simpl never.
+Local Arguments res_untag : simpl never.
+Local Arguments oci_untag_equal : simpl never.
+Local Arguments g_index : simpl never.
+Local Arguments g_remove : simpl never.
+Local Arguments untag_fold : simpl never.
+Local Arguments spec_oci_tag : simpl never.
+Local Arguments gkey_eqb : simpl never.
+Local Arguments verify : simpl never.
+Local Arguments is_manifest : simpl never.
+
+Section Oci.
+  (* the universe: every digest is used with one media type and size *)
+  Variable U : N -> gkey.
+  Hypothesis U_dig : forall g, k_dig (U g) = g.
+
+  Definition canon_desc (d : desc) : Prop := gk d = U (d_dig d).
+
+  Definition canon_op (o : op) : Prop :=
+    match o with
+    | Push d _ | Fetch d | Exists d | Tag d _ | Preds d | Delete d => canon_desc d
+    | _ => True
+    end.
+
+  Definition S_oci (blobs : list (N * blob)) : gkey -> option (list gkey) :=
+    fun k => if gkey_eqb k (U (k_dig k)) then option_map (succ_of k) (get N.eqb (k_dig k) blobs) else None.
+
+  Record oci_inv (s : oci_store) : Prop := mkOI {
+    oi_nodup : NoDup (map fst (o_blobs s));
+    oi_graph : graph_inv (S_oci (o_blobs s)) (o_graph s);
+    oi_tags : forall r d, In (r, d) (r_index (o_res s)) ->
+                          canon_desc d /\ get N.eqb (d_dig d) (o_blobs s) <> None }.
+
+  Lemma oci_inv_init : oci_inv oci_init.
+  Proof.
+    constructor; simpl; [constructor | | tauto].
+    eapply graph_inv_ext; [|exact graph_inv_init]. intro k. unfold S_oci. simpl.
+    now destruct (gkey_eqb k (U (k_dig k))).
+  Qed.
+
+  Lemma k_dig_gk d : k_dig (gk d) = d_dig d.
+  Proof. reflexivity. Qed.
+
+  Lemma canon_same_dig d d' : canon_desc d -> canon_desc d' -> d_dig d = d_dig d' -> gk d = gk d'.
+  Proof. unfold canon_desc. intros -> -> ->. reflexivity. Qed.
+
+  (* resolver *)
+  Lemma r_index_tag d r s : r_index (res_tag d r s) = put ref_eqb r d (r_index s).
+  Proof. reflexivity. Qed.
+
+  Lemma r_index_oci_tag d r s : r_index (oci_tag d r s) = spec_oci_tag d r (r_index s).
+  Proof. unfold oci_tag, spec_oci_tag. destruct (ref_eqb r (RDig (d_dig d))); reflexivity. Qed.
+
+  Lemma r_index_untag r s : r_index (res_untag r s) = del ref_eqb r (r_index s).
+  Proof.
+    unfold res_untag. destruct (get ref_eqb r (r_index s)) eqn:E; [reflexivity|].
+    symmetry. now apply del_absent.
+  Qed.
+
+  Lemma r_index_untag_equal k snap s :
+    r_index (oci_untag_equal k snap s) = untag_fold k snap (r_index s).
+  Proof.
+    unfold oci_untag_equal, untag_fold. revert s. induction snap as [|e snap IH]; intro s; cbn [fold_left]; auto.
+    destruct (gkey_eqb (gk (snd e)) k); rewrite IH; [now rewrite r_index_untag | reflexivity].
+  Qed.
+
+  Lemma untag_equal_nomatch k snap s :
+    (forall e, In e snap -> gkey_eqb (gk (snd e)) k = false) -> oci_untag_equal k snap s = s.
+  Proof.
+    unfold oci_untag_equal. revert s. induction snap as [|e snap IH]; intros s H; cbn [fold_left]; auto.
+    rewrite (H e) by now left. apply IH. intros e' He'. apply H. now right.
+  Qed.
+
+  Lemma untag_fold_In k snap t r d :
+    In (r, d) (untag_fold k snap t) ->
+    In (r, d) t /\ forall d', In (r, d') snap -> gkey_eqb (gk d') k = false.
+  Proof.
+    unfold untag_fold. revert t. induction snap as [|[r0 d0] snap IH]; intros t H; cbn [fold_left fst snd] in H.
+    - split; auto. simpl. tauto.
+    - destruct (gkey_eqb (gk d0) k) eqn:E.
+      + destruct (IH _ H) as [A B]. apply (In_del_inv ref_eqb ref_eqb_spec) in A as [A1 A2].
+        split; auto. intros d' [C|C]; [congruence | auto].
+      + destruct (IH _ H) as [A B]. split; auto. intros d' [C|C]; [congruence | auto].
+  Qed.
+
+  Lemma get_put_mono (k k' : N) (v : blob) m :
+    get N.eqb k m <> None -> get N.eqb k (put N.eqb k' v m) <> None.
+  Proof.
+    intro H. destruct (N.eq_dec k k') as [->|Hne].
+    - rewrite (get_put_eq N.eqb Neqb_spec). discriminate.
+    - now rewrite (get_put_neq N.eqb Neqb_spec).
+  Qed.
+
+  Lemma In_spec_oci_tag d r t r' d' :
+    In (r', d') (spec_oci_tag d r t) -> d' = d \/ In (r', d') t.
+  Proof.
+    unfold spec_oci_tag. intro H. apply (In_put_inv ref_eqb) in H as [H|H]; [left; congruence|].
+    destruct (ref_eqb r (RDig (d_dig d))); auto.
+    apply (In_put_inv ref_eqb) in H as [H|H]; [left; congruence | auto].
+  Qed.
+
+  (* Delete of absent content touches nothing *)
+  Lemma oci_delete_absent s d :
+    oci_inv s -> get N.eqb (d_dig d) (o_blobs s) = None ->
+    oci_untag_equal (gk d) (r_index (o_res s)) (o_res s) = o_res s /\ g_remove d (o_graph s) = o_graph s.
+  Proof.
+    intros [Hnd Hg Ht] Habs. split.
+    - apply untag_equal_nomatch. intros [r d'] Hin. simpl.
+      destruct (gkey_eqb (gk d') (gk d)) eqn:E; auto. apply gkey_eqb_spec in E.
+      destruct (Ht _ _ Hin) as [_ B]. exfalso. apply B.
+      assert (d_dig d' = d_dig d) as -> by (unfold gk in E; congruence). exact Habs.
+    - eapply g_remove_absent; [exact Hg|]. unfold S_oci. rewrite k_dig_gk, Habs.
+      now destruct (gkey_eqb (gk d) (U (d_dig d))).
+  Qed.
+
+  Lemma S_oci_put d c blobs k :
+    canon_desc d ->
+    upd (S_oci blobs) (gk d) (Some (succ_of (gk d) c)) k = S_oci (put N.eqb (d_dig d) c blobs) k.
+  Proof.
+    intro Hc. unfold upd, S_oci. destruct (gkey_eqb k (gk d)) eqn:Ek.
+    - apply gkey_eqb_spec in Ek. subst k. rewrite k_dig_gk, <- Hc.
+      rewrite (eqb_refl gkey_eqb gkey_eqb_spec), (get_put_eq N.eqb Neqb_spec). reflexivity.
+    - destruct (gkey_eqb k (U (k_dig k))) eqn:Ec; auto.
+      rewrite (get_put_neq N.eqb Neqb_spec); auto.
+      intro Hd. apply gkey_eqb_spec in Ec. rewrite Hd, <- Hc in Ec. subst k.
+      rewrite (eqb_refl gkey_eqb gkey_eqb_spec) in Ek. discriminate.
+  Qed.
+
+  Lemma S_oci_del d blobs k :
+    canon_desc d ->
+    upd (S_oci blobs) (gk d) None k = S_oci (del N.eqb (d_dig d) blobs) k.
+  Proof.
+    intro Hc. unfold upd, S_oci. destruct (gkey_eqb k (gk d)) eqn:Ek.
+    - apply gkey_eqb_spec in Ek. subst k. rewrite k_dig_gk, (get_del_eq N.eqb).
+      now destruct (gkey_eqb (gk d) (U (d_dig d))).
+    - destruct (gkey_eqb k (U (k_dig k))) eqn:Ec; auto.
+      rewrite (get_del_neq N.eqb Neqb_spec); auto.
+      intro Hd. apply gkey_eqb_spec in Ec. rewrite Hd, <- Hc in Ec. subst k.
+      rewrite (eqb_refl gkey_eqb gkey_eqb_spec) in Ek. discriminate.
+  Qed.
+
+  Lemma oci_inv_tag s d r :
+    oci_inv s -> canon_desc d -> get N.eqb (d_dig d) (o_blobs s) <> None ->
+    oci_inv (mkOci (o_blobs s) (oci_tag d r (o_res s)) (o_graph s)).
+  Proof.
+    intros [Hnd Hg Ht] Hc E. constructor; cbn [o_blobs o_res o_graph]; [exact Hnd | exact Hg |].
+    intros r' d' Hin. rewrite r_index_oci_tag in Hin.
+    apply In_spec_oci_tag in Hin as [->|Hin]; [split; assumption | apply (Ht _ _ Hin)].
+  Qed.
+
+  Lemma oci_inv_untag s r :
+    oci_inv s -> oci_inv (mkOci (o_blobs s) (res_untag r (o_res s)) (o_graph s)).
+  Proof.
+    intros [Hnd Hg Ht]. constructor; cbn [o_blobs o_res o_graph]; [exact Hnd | exact Hg |].
+    intros r' d' Hin. rewrite r_index_untag in Hin.
+    apply (In_del_inv ref_eqb ref_eqb_spec) in Hin as [Hin _]. apply (Ht _ _ Hin).
+  Qed.
+
+  Lemma oci_abs_tag s d r :
+    oci_abs (mkOci (o_blobs s) (oci_tag d r (o_res s)) (o_graph s)) =
+    mkSpec (sp_content (oci_abs s)) (spec_oci_tag d r (sp_tags (oci_abs s))).
+  Proof. unfold oci_abs. cbn [o_blobs o_res sp_content sp_tags]. now rewrite r_index_oci_tag. Qed.
+
+  Lemma oci_abs_untag s r :
+    oci_abs (mkOci (o_blobs s) (res_untag r (o_res s)) (o_graph s)) =
+    mkSpec (sp_content (oci_abs s)) (del ref_eqb r (sp_tags (oci_abs s))).
+  Proof. unfold oci_abs. cbn [o_blobs o_res sp_content sp_tags]. now rewrite r_index_untag. Qed.
+
+  Lemma oci_step_inv s o : canon_op o -> oci_inv s -> oci_inv (fst (oci_step s o)).
+  Proof.
+    intros Hc Hinv. pose proof Hinv as [Hnd Hg Ht]. destruct o; simpl in *; try assumption.
+    - (* Push *)
+      destruct (get N.eqb (d_dig d) (o_blobs s)) eqn:E; [assumption|].
+      destruct (verify d c); [|assumption]. constructor; simpl.
+      + now apply (NoDup_put N.eqb Neqb_spec).
+      + eapply graph_inv_ext; [intro k; apply S_oci_put; exact Hc|].
+        apply g_index_inv; auto. unfold S_oci. rewrite k_dig_gk, E.
+        now destruct (gkey_eqb (gk d) (U (d_dig d))).
+      + intros r d' Hin.
+        assert (Hin' : d' = d \/ In (r, d') (r_index (o_res s))).
+        { destruct (is_manifest (d_mt d)); auto. rewrite r_index_oci_tag in Hin.
+          eapply In_spec_oci_tag; eauto. }
+        destruct Hin' as [->|Hin'].
+        * split; auto. rewrite (get_put_eq N.eqb Neqb_spec). discriminate.
+        * destruct (Ht _ _ Hin') as [A B]. split; auto. now apply get_put_mono.
+    - destruct (get N.eqb (d_dig d) (o_blobs s)); assumption.
+    - (* Tag *)
+      assert (Hok : forall r0, get N.eqb (d_dig d) (o_blobs s) <> None ->
+                               oci_inv (mkOci (o_blobs s) (oci_tag d r0 (o_res s)) (o_graph s)))
+        by (intros r0 E; now apply oci_inv_tag).
+      destruct r; try assumption;
+        (destruct (get N.eqb (d_dig d) (o_blobs s)) eqn:E; [|assumption];
+         apply Hok; discriminate).
+    - (* Resolve *)
+      destruct r; simpl; try assumption;
+        destruct (get ref_eqb _ (r_index (o_res s))); simpl; try assumption.
+      destruct (get N.eqb g (o_blobs s)); assumption.
+    - (* Untag *)
+      destruct r; try assumption;
+        (destruct (get ref_eqb _ (r_index (o_res s))) as [d0|] eqn:E; [|assumption];
+         destruct (ref_eqb _ (RDig (d_dig d0))); [assumption|]; apply oci_inv_untag; assumption).
+    - (* Delete *)
+      destruct (get N.eqb (d_dig d) (o_blobs s)) eqn:E; simpl.
+      + constructor; simpl.
+        * now apply NoDup_del.
+        * eapply graph_inv_ext; [intro k; apply S_oci_del; exact Hc|]. now apply g_remove_inv.
+        * intros r d' Hin. rewrite r_index_untag_equal in Hin.
+          apply untag_fold_In in Hin as [A B]. specialize (B _ A).
+          destruct (Ht _ _ A) as [C D]. split; auto.
+          rewrite (get_del_neq N.eqb Neqb_spec); auto.
+          intro Hd. rewrite (canon_same_dig _ _ C Hc Hd) in B.
+          rewrite (eqb_refl gkey_eqb gkey_eqb_spec) in B. discriminate.
+      + destruct (oci_delete_absent s d Hinv E) as [-> ->]. destruct s; assumption.
+  Qed.
+
+  Lemma ospec_preds_spec n content x :
+    NoDup (map fst content) ->
+    In x (ospec_preds U n content) <-> exists l, S_oci content x = Some l /\ In n l.
+  Proof.
+    intro Hnd. unfold ospec_preds, S_oci. rewrite in_map_iff. split.
+    - intros ([g c] & A & B). simpl in A. subst x. apply filter_In in B as [B C]. simpl in C.
+      exists (succ_of (U g) c). rewrite U_dig, (eqb_refl gkey_eqb gkey_eqb_spec).
+      rewrite (In_get N.eqb Neqb_spec _ _ _ Hnd B). simpl. split; auto.
+      now apply (mem_In gkey_eqb gkey_eqb_spec).
+    - intros (l & A & B). destruct (gkey_eqb x (U (k_dig x))) eqn:Ec; [|discriminate].
+      apply gkey_eqb_spec in Ec.
+      destruct (get N.eqb (k_dig x) content) as [c|] eqn:E; [|discriminate].
+      simpl in A. injection A as <-. exists (k_dig x, c). simpl. split; auto. apply filter_In. split.
+      + now apply (get_In N.eqb Neqb_spec).
+      + simpl. rewrite <- Ec. now apply (mem_In gkey_eqb gkey_eqb_spec).
+  Qed.
+
+  Lemma oci_step_refines s o :
+    oci_inv s ->
+    oci_abs (fst (oci_step s o)) = fst (ospec_step U (oci_abs s) o) /\
+    out_equiv (snd (oci_step s o)) (snd (ospec_step U (oci_abs s) o)).
+  Proof.
+    intros Hinv. pose proof Hinv as [Hnd Hg Ht]. destruct o; simpl.
+    - destruct (get N.eqb (d_dig d) (o_blobs s)); [split; reflexivity|].
+      destruct (verify d c); [|split; reflexivity]. split; [|reflexivity].
+      unfold oci_abs; simpl. destruct (is_manifest (d_mt d)); [now rewrite r_index_oci_tag | reflexivity].
+    - destruct (get N.eqb (d_dig d) (o_blobs s)); split; reflexivity.
+    - split; reflexivity.
+    - destruct r; try (split; reflexivity);
+        (destruct (is_some _); [|split; reflexivity]; split; [|reflexivity]; apply oci_abs_tag).
+    - destruct r; try (split; reflexivity);
+        destruct (get ref_eqb _ (r_index (o_res s))); try (split; reflexivity).
+      destruct (get N.eqb g (o_blobs s)); split; reflexivity.
+    - split; [reflexivity|]. intro k.
+      rewrite (g_predecessors_spec _ _ _ _ Hg). symmetry. now apply ospec_preds_spec.
+    - destruct r; try (split; reflexivity);
+        (destruct (get ref_eqb _ (r_index (o_res s))) as [d0|]; [|split; reflexivity];
+         destruct (ref_eqb _ (RDig (d_dig d0))); [split; reflexivity|]; split; [|reflexivity];
+         apply oci_abs_untag).
+    - destruct (get N.eqb (d_dig d) (o_blobs s)) eqn:E; simpl.
+      + split; [|reflexivity]. unfold oci_abs; simpl. now rewrite r_index_untag_equal.
+      + destruct (oci_delete_absent s d Hinv E) as [-> ->]. split; reflexivity.
+    - split; reflexivity.
+  Qed.
+
+  Lemma run_refines_oci h : forall s,
+    Forall canon_op h -> oci_inv s ->
+    oci_abs (fst (run oci_step s h)) = fst (run (ospec_step U) (oci_abs s) h) /\
+    Forall2 out_equiv (snd (run oci_step s h)) (snd (run (ospec_step U) (oci_abs s) h)) /\
+    oci_inv (fst (run oci_step s h)).
+  Proof.
+    induction h as [|o h IH]; intros s Hc Hinv.
+    - simpl. split; [reflexivity|]. split; [constructor | exact Hinv].
+    - inversion Hc as [|? ? Hco Hch]; subst. rewrite !run_cons. cbn [fst snd].
+      destruct (oci_step_refines s o Hinv) as [A B].
+      destruct (IH _ Hch (oci_step_inv s o Hco Hinv)) as (C & D & E).
+      rewrite <- A. split; [exact C|]. split; [constructor; assumption | exact E].
+  Qed.
+
+  (* a refused or failed operation changes nothing, literally *)
+  Lemma oci_failed_noop s o :
+    oci_inv s -> is_err (snd (oci_step s o)) = true -> fst (oci_step s o) = s.
+  Proof.
+    intros Hinv. destruct o; simpl; try reflexivity.
+    - destruct (get N.eqb (d_dig d) (o_blobs s)); [reflexivity|]. destruct (verify d c); [discriminate|reflexivity].
+    - destruct (get N.eqb (d_dig d) (o_blobs s)); reflexivity.
+    - destruct r; try reflexivity; (destruct (is_some _); [discriminate|reflexivity]).
+    - destruct r; try reflexivity; destruct (get ref_eqb _ (r_index (o_res s))); try reflexivity.
+      destruct (get N.eqb g (o_blobs s)); reflexivity.
+    - destruct r; try reflexivity;
+        (destruct (get ref_eqb _ (r_index (o_res s))) as [d0|]; [|reflexivity];
+         destruct (ref_eqb _ (RDig (d_dig d0))); [reflexivity|discriminate]).
+    - destruct (get N.eqb (d_dig d) (o_blobs s)) eqn:E; simpl; [discriminate|]. intros _.
+      destruct (oci_delete_absent s d Hinv E) as [-> ->]. now destruct s.
+  Qed.
+End Oci.
+
+(* ---------- statements over whole histories ---------- *)
+Lemma refines_memory (h : list op) :
+  mem_abs (fst (run mem_step mem_init h)) = fst (run mspec_step mspec_init h) /\
+  Forall2 out_equiv (snd (run mem_step mem_init h)) (snd (run mspec_step mspec_init h)).
+Proof. destruct (run_refines_mem h mem_init mem_inv_init) as (A & B & _). split; assumption. Qed.
+
+Lemma refines_oci (U : N -> gkey) :
+  (forall g, k_dig (U g) = g) ->
+  forall h : list op, Forall (canon_op U) h ->
+  oci_abs (fst (run oci_step oci_init h)) = fst (run (ospec_step U) ospec_init h) /\
+  Forall2 out_equiv (snd (run oci_step oci_init h)) (snd (run (ospec_step U) ospec_init h)).
+Proof.
+  intros HU h Hc. destruct (run_refines_oci U HU h oci_init Hc (oci_inv_init U)) as (A & B & _).
+  split; assumption.
+Qed.
+
+Lemma failed_noop_memory (h : list op) (o : op) :
+  let s := fst (run mem_step mem_init h) in
+  is_err (snd (mem_step s o)) = true -> fst (mem_step s o) = s.
+Proof. intro s. apply mem_failed_noop. Qed.
+
+Lemma failed_noop_oci (U : N -> gkey) :
+  (forall g, k_dig (U g) = g) ->
+  forall (h : list op) (o : op), Forall (canon_op U) h ->
+  let s := fst (run oci_step oci_init h) in
+  is_err (snd (oci_step s o)) = true -> fst (oci_step s o) = s.
+Proof.
+  intros HU h o Hc s. apply (oci_failed_noop U).
+  destruct (run_refines_oci U HU h oci_init Hc (oci_inv_init U)) as (_ & _ & E). exact E.
+Qed.
